@@ -2119,6 +2119,47 @@ func (mp *mapProto) entryTables() {
 					ok, why = false, fmt.Sprintf("a path (%s) reports 'stored, not loaded' without a successful compare-and-swap from nil", p.CondString())
 				}
 			}
+			// (5) a value taken from the word is a value that was found there: the 'loaded'/'ok' flag next to it is true
+			derefs := false
+			if len(p.Rets) >= 2 {
+				p.Rets[0].Walk(func(x *Term) bool {
+					if x.Op == "load" && len(x.Args) == 1 {
+						w := x.Args[0]
+						for w != nil && w.Op == "conv" {
+							w = w.Args[0]
+						}
+						if isWordTerm(w) {
+							derefs = true
+						}
+					}
+					return true
+				})
+				// (the third result, 'handled', may be false next to a found value: the caller then retries under the lock)
+				if derefs && p.Rets[1].IsConst("false") && !(len(p.Rets) == 3 && p.Rets[2].IsConst("false")) {
+					ok, why = false, fmt.Sprintf("a path (%s) returns the value it found behind the word but reports it as not found", p.CondString())
+				}
+			}
+			// (6) 'handled' (third result true) comes in two forms only: the value found behind the word, or the caller's
+			// value after a successful compare-and-swap from nil (4). Anything else - the zero value with ok=true, say -
+			// tells the caller to stop although nothing was loaded or stored.
+			if len(p.Rets) == 3 && p.Rets[2].IsConst("true") && !derefs && p.Rets[0].Op != "param" {
+				ok, why = false, fmt.Sprintf("a path (%s) reports 'handled' with a result that is neither the value behind the word nor the caller's stored value", p.CondString())
+			}
+			// (7) ... and a compare-and-swap found successful has changed the word: the path may not tell its caller that
+			// nothing happened (the caller then writes a second time, and a value stored in between is overwritten by
+			// a write that already took effect once)
+			if lastOp == "cas" && lastCAS != nil {
+				won := false
+				for _, cd := range p.Conds {
+					t, pol := stripNot(cd.T, cd.Pol)
+					if t.Key() == lastCAS.Res.Key() && pol {
+						won = true
+					}
+				}
+				if won && len(p.Rets) > 0 && p.Rets[len(p.Rets)-1].IsConst("false") {
+					ok, why = false, fmt.Sprintf("a path (%s) reports failure after a compare-and-swap that succeeded", p.CondString())
+				}
+			}
 			// (3) success reported right after a CAS needs that CAS to have succeeded
 			if lastOp == "cas" && !casOK {
 				for _, r := range p.Rets {
@@ -2150,6 +2191,44 @@ func (mp *mapProto) entryTables() {
 					}
 					if ops > 0 && loads == 0 {
 						ok2, why2 = false, fmt.Sprintf("an iteration (%s) retries without loading the word again: with a concurrent writer the loop decides on a stale value forever", p.CondString())
+					}
+					// a compare-and-swap from a fixed old value (nil) can only succeed next time if the word holds that
+					// value again: the iteration must have seen so in what it loaded last, or the loop spins on a word
+					// nobody changes
+					var fixedCAS *Event
+					var last *Term
+					for i := at; i < len(p.Events); i++ {
+						e := &p.Events[i]
+						switch isWordOp(e) {
+						case "cas":
+							if len(e.Args) == 3 && (e.Args[1].IsNil() || mp.isExpunged(e.Args[1])) {
+								fixedCAS = e
+							}
+						case "load":
+							last = e.Res
+						}
+					}
+					_ = last
+					if fixedCAS != nil {
+						// seen in this iteration: at its head (a loop variable carrying the loaded word) or in what it
+						// loaded after the failed attempt
+						seen := false
+						for _, cd := range p.Conds {
+							r := cd.Rel()
+							if r.B == nil || r.Op != "==" || cd.NEv < at {
+								continue
+							}
+							a, b := r.A, r.B
+							if isWordTerm(b) {
+								a, b = b, a
+							}
+							if isWordTerm(a) && b.Key() == fixedCAS.Args[1].Key() {
+								seen = true
+							}
+						}
+						if !seen {
+							ok2, why2 = false, fmt.Sprintf("an iteration (%s) retries a compare-and-swap from %s without having seen that value in the word: while the word holds anything else the loop never ends", p.CondString(), fixedCAS.Args[1])
+						}
 					}
 				}
 			}
